@@ -59,7 +59,7 @@ def run_config(ctx, rep, cfg, F):
                             % (short, file, callee), config=cfg)
                 else:
                     rep.ok("R18.1", short, callee.rsplit("::", 1)[1] + " inside prefix.rs")
-    rep.floor("repr / from_repr_len call sites (%s)" % cfg, n_sites, 6)
+    rep.floor("repr / from_repr_len call sites (%s)" % cfg, n_sites, 1)
     for f in F.lib_fns():
         short = F.short_of[f["path"]]
         if f["file"].endswith("prefix.rs") or f["file"].endswith("serde.rs") or f["file"].endswith("fmt.rs"):
@@ -158,8 +158,8 @@ def run_config(ctx, rep, cfg, F):
         else:
             rep.bad("R18.2", w, "uninterpreted-prefix-writer", "MIR shows that %s assigns Node::prefix but no analysed path goes through it" % w,
                     kind="unrecognised", config=cfg)
-    rep.floor("functions assigning Node::prefix (%s)" % cfg, len(writers), 4)
-    rep.floor("existing-node paths checked for the stored prefix (%s)" % cfg, n, 100)
+    rep.floor("functions assigning Node::prefix (%s)" % cfg, len(writers), 1)
+    rep.floor("existing-node paths checked for the stored prefix (%s)" % cfg, n, 150)
     # ---- R18.3 observers (rule of C01) and set-operation items
     r2 = engine.Renamed(rep, lambda r: "R18.3" if r.startswith("R01") else r)
     for short in ("PrefixMap::get_key_value", "PrefixSet::get"):
@@ -167,7 +167,7 @@ def run_config(ctx, rep, cfg, F):
         for p in C.complete(ctx.paths(F, short, c01.OPTS)):
             T = c01.table_of(p)
             c01.check_observer(r2, F, "R18.3", short, p, C.Walk(p, T, "0", q), *c01.OBSERVERS[short], T)
-    S.run_ops(ctx, rep, cfg, F, ["union", "intersection", "difference", "covering"], RULES, "repr", 9000, ctors=False)
+    S.run_ops(ctx, rep, cfg, F, ["union", "intersection", "difference", "covering"], RULES, "repr", 4000, ctors=False)
 
 
 def finalize(ctx, rep):
